@@ -19,7 +19,8 @@ ASSUMPTIONS = ['LockModel restates the property; gin.constant and register_final
                '(the statement does not ask for it)', 'at most 2 user hooks and 2 late registrations per history']
 WITNESSES = ['locked_bind_rejected', 'locked_register_rejected', 'unlock_restores_locked', 'raising_body_restores',
              'nested_unlock', 'hook_binding_applied', 'hook_conflict_rejected', 'finalize_twice_rejected',
-             'bad_config_rejected_unlocked', 'clear_unlocks', 'hook_raises_leaves_unlocked']
+             'bad_config_rejected_unlocked', 'clear_unlocks', 'hook_raises_leaves_unlocked',
+             'unevaluated_after_evaluated_rejected']
 
 
 class Boom(Exception):
@@ -37,12 +38,12 @@ def setup():
 OPS = ['finalize', 'unlock_enter', 'unlock_exit_ok', 'unlock_exit_raise', 'bind_x', 'parse_y', 'register', 'clear',
        'register_class_with_method', 'hook_y7', 'hook_y8_other_spelling', 'hook_z', 'hook_invalid', 'hook_raises', 'hook_none', 'hook_empty',
        'parse_unbound_macro', 'parse_placeholder', 'parse_required', 'bind_tuple_x', 'parse_block_z',
-       'define_macro']
+       'define_macro', 'parse_macro_y_evaluated', 'parse_macro_z_unevaluated', 'parse_macro_y_short_ref']
 UNIVERSE = ['c12.f.x', 'c12.f.y', 'c12.f.z']
 
 
 def bound(tier):
-  return 'depth<=%d over %d operations' % (6 if tier == 'quick' else 8, len(OPS))
+  return 'depth<=%d over %d operations' % (5 if tier == 'quick' else 7, len(OPS))
 
 
 def _hook(kind):
@@ -84,7 +85,8 @@ class World:
     self.config = {}         # model: key -> value tag
     self.hooks = []          # user hook kinds in registration order
     self.nreg = 0
-    self.bad = set()         # {'macro','placeholder','required'} currently present in the config
+    self.bad = set()         # {'macro','placeholder','required'} currently present in the config (parameter x)
+    self.kinds = {}          # parameter -> 'macro' (evaluated use of nomacro) | 'uneval' (unevaluated use)
     self.macro_defined = False
     self.counter = 0
     # an (as yet unregistered) class one of whose methods is registered on its own
@@ -144,7 +146,9 @@ class World:
     """Returns (outcome class, new bindings)"""
     if self.locked:
       return 'RuntimeError', None
-    if 'macro' in self.bad and not self.macro_defined:
+    if ('macro' in self.bad or 'macro' in self.kinds.values()) and not self.macro_defined:
+      return 'ValueError', None
+    if 'uneval' in self.kinds.values():
       return 'ValueError', None
     if 'placeholder' in self.bad:
       return 'ValueError', None
@@ -177,6 +181,7 @@ class World:
             self.config[k] = repr(v)
             if k == 'c12.f.x':
               self.bad.clear()
+            self.kinds.pop(k.rsplit('.', 1)[1], None)
           self.locked = True
         gin.finalize()
       elif op == 'unlock_enter':
@@ -197,7 +202,8 @@ class World:
           if swallowed and res is not None:
             res.violation('unlock_swallows_exception', 'unlock_config swallowed the body exception; %r' % (hist,), hist)
       elif op in ('bind_x', 'bind_tuple_x', 'parse_y', 'parse_block_z', 'parse_unbound_macro', 'parse_placeholder',
-                  'parse_required', 'define_macro'):
+                  'parse_required', 'define_macro', 'parse_macro_y_evaluated', 'parse_macro_z_unevaluated',
+                  'parse_macro_y_short_ref'):
         mutator = True
         if self.locked:
           exp_out = 'RuntimeError'
@@ -215,11 +221,28 @@ class World:
         elif op == 'parse_y':
           if not self.locked:
             self.config['c12.f.y'] = repr(3)
+            self.kinds.pop('y', None)
           gin.parse_config('c12.f.y = 3')
         elif op == 'parse_block_z':
           if not self.locked:
             self.config['c12.f.z'] = repr(4)
+            self.kinds.pop('z', None)
           gin.parse_config('c12.f:\n  z = 4\n')
+        elif op == 'parse_macro_y_evaluated':
+          if not self.locked:
+            self.config['c12.f.y'] = '%nomacro'
+            self.kinds['y'] = 'macro'
+          gin.parse_config('c12.f.y = %nomacro')
+        elif op == 'parse_macro_y_short_ref':
+          if not self.locked:
+            self.config['c12.f.y'] = '%nomacro'
+            self.kinds['y'] = 'macro'
+          gin.parse_config('c12.f.y = @nomacro/macro()')     # same macro, reference spelled with the short name
+        elif op == 'parse_macro_z_unevaluated':
+          if not self.locked:
+            self.config['c12.f.z'] = '@nomacro/macro'
+            self.kinds['z'] = 'uneval'
+          gin.parse_config('c12.f.z = @nomacro/macro')
         elif op == 'define_macro':
           if not self.locked:
             self.macro_defined = True
@@ -262,6 +285,7 @@ class World:
         self.locked = False
         self.config.clear()
         self.bad.clear()
+        self.kinds.clear()
         self.macro_defined = False
         gin.clear_config()
       elif op.startswith('hook_'):
@@ -286,6 +310,8 @@ class World:
     for k in UNIVERSE:
       if exp[k] == 'PLACEHOLDER' and got[k] is not None and 'UnknownConfigurableReference' in got[k]:
         got[k] = 'PLACEHOLDER'
+      if exp[k] == '@nomacro/macro' and got[k] is not None and got[k].startswith('@nomacro/') and not got[k].endswith('()'):
+        got[k] = '@nomacro/macro'
     if got != exp:
       sig = 'state:%s' % op
       if got['locked'] != exp['locked']:
@@ -321,6 +347,9 @@ class World:
         res.w('finalize_twice_rejected')
       if op == 'finalize' and exp_out == 'ValueError' and self.bad and not got['locked']:
         res.w('bad_config_rejected_unlocked')
+      if op == 'finalize' and exp_out == 'ValueError' and set(self.kinds.values()) == {'macro', 'uneval'} and \
+          self.macro_defined:
+        res.w('unevaluated_after_evaluated_rejected')
       if op == 'finalize' and exp_out == 'Boom' and not got['locked']:
         res.w('hook_raises_leaves_unlocked')
       if op == 'clear' and before_model['locked']:
@@ -330,7 +359,7 @@ class World:
 def run(ctx):
   res = core.Result()
   res.extra['alphabet'] = OPS
-  bfs.run_bfs(ctx, __import__('checks.c12', fromlist=['x']), 6 if ctx.quick else 8, res,
+  bfs.run_bfs(ctx, __import__('checks.c12', fromlist=['x']), 5 if ctx.quick else 7, res,
               max_states=60000 if ctx.quick else 600000)
   return res
 
